@@ -1347,7 +1347,7 @@ func runC03() {
 		rep.fail(f)
 	}
 	rng := rand.New(rand.NewSource(*seed))
-	nGen, nEnvs, exLevel, coqMutants, coqOrig := 260, 6, 1, 1800, 700
+	nGen, nEnvs, exLevel, coqMutants, coqOrig := 260, 6, 1, 1300, 450
 	if *tier == "thorough" {
 		nGen, nEnvs, exLevel, coqMutants, coqOrig = 2500, 10, 2, 30000, 8000
 	}
@@ -1474,6 +1474,7 @@ func runC03() {
 	baseOf := map[string]int{"Env": 0, "C03X": 1}
 	pMut := float64(coqMutants) / float64(len(items)-nOrig+1)
 	pOrig := float64(coqOrig) / float64(nOrig*2+1)
+	pOrig0 := 3 * pOrig
 	for idx, it := range items {
 		w := it.w
 		isOrig := idx < nOrig
@@ -1489,7 +1490,7 @@ func runC03() {
 				distinct[w.name+"|"+it.src+"|"+d] = true
 			}
 			// correspondence sample
-			if (isOrig && (d == "" || rng.Float64() < pOrig)) || (!isOrig && d == "" && rng.Float64() < pMut) {
+			if (isOrig && ((d == "" && (it.fam != "exhaustive family" || rng.Float64() < pOrig0)) || rng.Float64() < pOrig)) || (!isOrig && d == "" && rng.Float64() < pMut) {
 				addCase(it.src, baseOf[w.name], d, isOrig && di == 0 && rng.Intn(4) == 0)
 			}
 			prog, compErr := c03SafeCompile(it.src, c03Options(w, d))
@@ -1603,7 +1604,7 @@ func runC03() {
 	for bi := range bases {
 		for _, s := range extra {
 			for _, d := range directives {
-				if d != "" && rng.Intn(3) != 0 {
+				if d != "" && rng.Intn(6) != 0 {
 					continue
 				}
 				addCase(s, bi, d, rng.Intn(5) == 0)
